@@ -321,6 +321,27 @@ def gen_spec(rng, big=False, small=False):
     return spec
 
 
+def gen_many_spec(rng):
+    """More than 100 segments; two (or three) channels whose per-segment value counts agree over the first 100+
+    segments and diverge only later (the reader de-duplicates per-channel segment-offset arrays by comparing them
+    in blocks of 100 entries)."""
+    dt = rng.choice(["i32", "f64"])
+    names = ["a", "b"] + (["c"] if rng.random() < 0.3 else [])
+    chans = {nm: dt for nm in names}
+    n0 = rng.randint(1, 2)
+    nseg = rng.randint(104, 135)
+    first_change = rng.randint(101, nseg - 2)
+    segs = [dict(kind="new", be=False, objs=[[nm, n0] for nm in names], interleaved=False, nchunks=1)]
+    for si in range(1, nseg):
+        if si == first_change or (si > first_change and rng.random() < 0.08):
+            nm = rng.choice(names[1:])
+            segs.append(dict(kind="toggle", be=False, toggle=[nm, rng.choice([n0 + 1, n0 + 2, "off"])],
+                             interleaved=False, nchunks=1))
+        else:
+            segs.append(dict(kind="same", be=False, interleaved=False, nchunks=1))
+    return dict(channels=chans, segments=segs, strw=3)
+
+
 # ---------------------------------------------------------------------------
 # observation helpers
 
